@@ -166,7 +166,12 @@ def run_setalg(cx: Cx, ob: Ob, want: str) -> None:
         except Undecided as e:
             ob.undecide(f"remap_curie_prefixes: {e}")
     if n == 0:
-        ob.violate(fn.qualname, fn.where, "remap_curie_prefixes has no path that renames a record", detail="no-update-path")
+        elsewhere = [ev for ev, _ in s.walk() if ev.kind == "store" and op(ev.a) == "attr" and ev.a[2] in ("prefix", "prefix_synonyms")]
+        if elsewhere:
+            # records ARE renamed, but not in the loop over the ordered pairs (decide first, apply afterwards)
+            ob.undecide(f"remap_curie_prefixes renames records at line {elsewhere[0].line}, outside the loop over the ordered pairs (a plan is applied afterwards): the set algebra of a two-phase update is not analysed")
+        else:
+            ob.violate(fn.qualname, fn.where, "remap_curie_prefixes has no path that renames a record", detail="no-update-path")
 
 
 @obligation("C11-D3", "frame: remap_curie_prefixes never stores uri_prefix / uri_prefix_synonyms / pattern", floor=1)
@@ -249,6 +254,20 @@ def d5(cx: Cx, ob: Ob) -> None:
     old, new = lp.a[1]
     conv = ("param", fn.params[0].name)
     from ..rules import truth_table
+
+    def _record_stores(paths):
+        for p_ in paths:
+            for ev in p_.events:
+                if ev.kind == "store" and op(ev.a) == "attr" and ev.a[2] in ("prefix", "prefix_synonyms"):
+                    yield ev
+                if ev.body:
+                    yield from _record_stores(ev.body)
+
+    if not list(_record_stores(lp.body)):
+        elsewhere = [ev for ev, _ in s.walk() if ev.kind == "store" and op(ev.a) == "attr" and ev.a[2] in ("prefix", "prefix_synonyms")]
+        if elsewhere:
+            ob.undecide(f"remap_curie_prefixes renames records at line {elsewhere[0].line}, outside the loop over the ordered pairs (a plan is applied afterwards): which pairs reach the update is not analysed")
+            return
 
     def lookup_of_new(x) -> bool:
         return (op(x) == "call" and x[2][:1] == (new,) and callee_name(x) in ("get_record", "get", "standardize_prefix")) or (op(x) == "item" and x[2] == new)
@@ -396,6 +415,13 @@ def d5(cx: Cx, ob: Ob) -> None:
                         detail="stale-clash-lookup",
                     )
                     break
+    # tests decided by calling an element of a table of rules (or any computed callable) cannot be classified
+    from ..rules import table_of_code
+
+    opaque = table_of_code(cx, lp.body) if (not seen_unknown or not seen_clash) else None
+    if opaque:
+        ob.undecide(f"remap_curie_prefixes decides what to skip through {opaque}: the skip conditions are values, not tests the rule can classify")
+        return
     if not seen_unknown:
         ob.violate(fn.qualname, fn.where, "remap_curie_prefixes has no skip for pairs whose old prefix is unknown to the converter", detail="no-unknown-skip")
     if not seen_clash:
